@@ -296,6 +296,15 @@ func genScenario(r *Rng, pf pipeProfile) PScn {
 			p.Types = append(p.Types, PType{Name: name, Kind: kind, Tags: Pick(r, pipeTagMenu)})
 			used[name] = true
 		}
+		if r.Chance(30) {
+			// unexported twins of declared names: equal under case folding, so an ordering that folds case leaves their
+			// relative order to the map
+			for _, name := range names[4-nt:] {
+				if r.Chance(60) {
+					p.Types = append(p.Types, PType{Name: strings.ToLower(name), Kind: Pick(r, []string{"n", "s", "a"}), Tags: Pick(r, pipeTagMenu)})
+				}
+			}
+		}
 		if pf.locals && r.Chance(45) {
 			// a function-local type or a type parameter, often sharing the name of a package-level type
 			n := Pick(r, []string{"A", "B", "L", "Z"})
